@@ -14,9 +14,13 @@ from harness import rdrv  # noqa: E402
 ACT = {'ok': None, 't4': 450, 'p5': 550, 'e500': 500, 'bad': 'malformed', 'drop': 'disconnect', 'stall': 'stall'}
 
 
+TX = ('mail', 'rcpt', 'data', 'eod', 'rset')
+
+
 def script_of(hist, lmtp, nr):
+    """hist: (message, stage, index, answer).  Transaction stages are scripted per transaction (the peer counts MAILs)."""
     script, connect = {}, {}
-    for s, i, a in hist:
+    for m, s, i, a in hist:
         act = ACT[a]
         if s == 'conn':
             if a == 'drop':
@@ -27,9 +31,11 @@ def script_of(hist, lmtp, nr):
         if act is None:
             continue
         if s == 'rcpt':
-            script.setdefault('rcpt', [None] * nr)[i - 1] = act
+            script.setdefault('rcpt', [{} for _ in range(nr)])[i - 1][m - 1] = act
         elif s == 'eod' and lmtp:
-            script.setdefault('eod', [None] * nr)[i - 1] = act
+            script.setdefault('eod', [{} for _ in range(nr)])[i - 1][m - 1] = act
+        elif s in TX:
+            script.setdefault(s, {})[m - 1] = act
         else:
             script[s] = act
     return script, connect
@@ -64,32 +70,47 @@ def main():
             idx += 1
             if idx % nshards != shard:
                 continue
+            if st.get('nmsg', 1) > 1 and len(b['results']) > 1 and any(h[1] == 'rset' and h[3] in ('t4', 'p5') for h in b['hist']):
+                # the downstream refused the RSET itself and the client went on using the connection: whether that counts
+                # as "reset before the next message" is not for this check to decide
+                continue
             hist = [tuple(h) for h in b['hist']]
+            preds = b['results']
             script, connect = script_of(hist, lmtp, nr)
-            r = rdrv.RelayRun(lmtp, pipe, [script], connect=connect)
-            r.attempt(1, nr)
+            r = rdrv.RelayRun(lmtp, pipe, [script], connect=connect, idle_timeout=5 if st.get('nmsg', 1) > 1 else None)
+            for req in range(1, len(preds) + 1):
+                r.attempt(req, nr)
+                r.settle()
+                k_ = 0
+                while not r.greenlets[-1].ready() and k_ < 20:      # this message first, then the next one
+                    k_ += 1
+                    if rdrv.CLOCK.next_deadline() is None:
+                        break
+                    rdrv.CLOCK.fire_next()
+                    r.settle()
+                    r.log(t='advance')
             ev = r.run_to_end()
             if connect.get(0):       # the observer learns of a refused / never completed connection through a peer event
                 ev.insert(2, {'t': 'peer', 'stage': 'connect', 'i': 0, 'act': 'stall' if connect[0] == 'stall' else 'disconnect', 'code': 0,
                               'conn': 0, 'trans': 0, 'm': 0, 'now': 1000})
             conv = conversation([e for e in ev if not (e['t'] == 'peer' and e['stage'] == 'connect')], lmtp)
-            ret = [e for e in ev if e['t'] == 'ret']
-            pred = b['result']
-            got = None
-            if ret:
-                e = ret[0]
-                got = {'k': 'raise', 'c': e['cls']} if e['kind'] == 'raise' else {'k': 'map', 'per': e['per']} if e['kind'] in ('map', 'whole') else {'k': e['kind']}
-            d_res = got != pred
-            d_conv = conv != [list(h) for h in hist]
+            rets = sorted([e for e in ev if e['t'] == 'ret'], key=lambda e: e['req'])
+            got = [{'k': 'raise', 'c': e['cls']} if e['kind'] == 'raise' else {'k': 'map', 'per': e['per']} if e['kind'] in ('map', 'whole') else {'k': e['kind']}
+                   for e in rets]
+            pred = preds
+            d_res = got != preds
+            d_conv = conv != [list(h[1:]) for h in hist]
             stats['executions'] += 1
             stats['drift_result'] += 1 if d_res else 0
             stats['drift_conversation'] += 1 if d_conv else 0
             ev.append({'t': 'drift', 'result': d_res, 'conv': d_conv})
-            stages = sorted(set(h[0] for h in hist if h[2] != 'ok'))
+            stages = sorted(set(h[1] for h in hist if h[3] != 'ok'))
             cfg = {'lmtp': lmtp, 'pipelining': pipe, 'kind': 'smtp', 'deadline': 0, 'stages': stages}
+            if st.get('nmsg', 1) > 1:       # judged by the pool observer (several requests on one connection)
+                cfg.update({'pool_size': 0, 'idle': 5, 'maxconn': max(8, r.nconn), 'sched': 'model'})
             if d_res or d_conv:
                 cfg['model'] = json.dumps({'hist': b['hist'], 'result': pred, 'got': got, 'conv': conv})
-            f.write(json.dumps({'id': shard + n * nshards, 'cls': 'model-' + ('lmtp' if lmtp else 'smtp') + ('-pipelining' if pipe else ''),
+            f.write(json.dumps({'id': shard + n * nshards, 'cls': 'model-' + ('lmtp' if lmtp else 'smtp') + ('-pipelining' if pipe else '') + ('-reuse' if st.get('nmsg', 1) > 1 else ''),
                                 'cfg': cfg, 'ev': ev}, separators=(',', ':')) + '\n')
             n += 1
     f.write(json.dumps({'summary': stats}) + '\n')
